@@ -195,7 +195,7 @@ fn main() {
         u8_hsl_total(c, r);
     }));
     // float RGB grid + two-equal planes + sextant boundaries
-    let n: u64 = if quick { 65 } else { 129 };
+    let n: u64 = if quick { 65 } else { 321 };
     rep.merge(par_range(&cfg, n * n * n, |i, r| {
         let g = |k: u64| k as f32 / (n - 1) as f32;
         f32_rgb_roundtrip([g(i % n), g(i / n % n), g(i / n / n)], r);
@@ -238,7 +238,7 @@ fn main() {
         f32_hsl_total([hs[(i % nh) as usize], g(i / nh % sl), g(i / nh / sl)], r);
     }));
     // non-dyadic decimal grids (k/100): values whose products and differences round
-    let dn: u64 = if quick { 101 } else { 201 };
+    let dn: u64 = if quick { 101 } else { 401 };
     rep.merge(par_range(&cfg, dn * dn * dn, |i, r| {
         let g = |k: u64| k as f32 / (dn - 1) as f32;
         let c = [g(i % dn), g(i / dn % dn), g(i / dn / dn)];
